@@ -326,6 +326,29 @@ func c20Systematic(tier string) []*Case {
 		cs.Aux = &Aux{C20: &C20Expect{Lines: []string{l.text}}}
 		out = append(out, cs)
 	}
+	// a failure 30 000 calls deep, three times, then ordinary lines (kept out of the general
+	// pool: growing a goroutine stack that far costs a noticeable fraction of a second per run)
+	{
+		deep := c20Line{"rt-very-deep-recursion", "rt-deep", KwFun + " r(n) { " + KwIf + " (n > 0) { " + KwReturn + " r(n - 1); } " + KwReturn + " 1 / 0; } r(30000);"}
+		sess := []c20Line{deep, deep, deep}
+		for _, l := range c20Pool {
+			switch l.name {
+			case "print-builtin", "multi-func", "ok-deep-recursion", "expr-sqrt":
+				sess = append(sess, l)
+			}
+		}
+		var ls []string
+		for _, l := range sess {
+			ls = append(ls, l.text)
+		}
+		base := replCfg(c20SessionStdin(ls))
+		base.Budget = 50000000
+		cs := c20Case(sess, []sim.Config{withDelivery(base, "all")}, []string{"all"}, "very-deep")
+		for i := range cs.Runs {
+			cs.Runs[i].Cfg.Budget = 50000000
+		}
+		out = append(out, cs)
+	}
 	// echo
 	for _, e := range c20Echo {
 		cs := &Case{Prop: "C20", Kind: "echo", Sig: "echo:" + e, Program: e + ";"}
